@@ -5,6 +5,7 @@ CONSTANTS
   Lens <- L24
   OutLens <- O25
   TrailerLen <- NoTrailer
+  DeclaredLen = FALSE
   Limit = 4
   Cuts = TRUE
   MaxWrite = 7
